@@ -19,11 +19,12 @@ type Rq struct {
 	Path    string `json:"path"`
 	PanicAt string `json:"panic_at,omitempty"` // "" = normal request; base | m0 | m1 | m5 | mg
 	After   bool   `json:"after,omitempty"`
-	Val     string `json:"val,omitempty"` // string error int ptr
+	Val     string `json:"val,omitempty"` // string error int ptr abort
+	Sub     bool   `json:"sub,omitempty"` // the handler issues a nested request to the same subject before answering
 }
 
 type Case struct {
-	Subject  string `json:"subject"`  // router gnew gadd
+	Subject  string `json:"subject"`  // router gnew gnewown gadd
 	Recovery string `json:"recovery"` // none func status
 	Status   int    `json:"status"`
 	Trace    bool   `json:"trace"`
@@ -38,7 +39,7 @@ var (
 
 func gen(t *rapid.T) Case {
 	c := Case{
-		Subject:  rapid.SampledFrom([]string{"router", "gnew", "gadd"}).Draw(t, "subject"),
+		Subject:  rapid.SampledFrom([]string{"router", "gnew", "gnewown", "gadd"}).Draw(t, "subject"),
 		Recovery: rapid.SampledFrom([]string{"none", "func", "func", "status"}).Draw(t, "recovery"),
 		Status:   rapid.SampledFrom([]int{500, 503, 418}).Draw(t, "status"),
 		Trace:    rapid.Bool().Draw(t, "trace"),
@@ -52,8 +53,9 @@ func gen(t *rapid.T) Case {
 		if rapid.IntRange(0, 9).Draw(t, "panics") < 6 {
 			q.PanicAt = rapid.SampledFrom([]string{"base", "base", "m0", "m1", "m5", "mg"}).Draw(t, "at")
 			q.After = rapid.Bool().Draw(t, "after")
-			q.Val = rapid.SampledFrom([]string{"string", "error", "int", "ptr"}).Draw(t, "val")
+			q.Val = rapid.SampledFrom([]string{"string", "error", "int", "ptr", "abort"}).Draw(t, "val")
 		}
+		q.Sub = rapid.IntRange(0, 3).Draw(t, "sub") == 0
 		c.Reqs = append(c.Reqs, q)
 	}
 	return c
@@ -107,6 +109,12 @@ func build(c Case) *world {
 		r := g.New("r", mux.NewPathVersion("", "v1"), traceOpt()...)
 		populate(r)
 		w.h = g
+	case "gnewown": // the group has no recovery option; the router made by Group.New gets its own
+		g := w.env.NewGroup()
+		g.Use(w.env.NewMW("mg"))
+		r := g.New("r", mux.NewPathVersion("", "v1"), append(traceOpt(), opts...)...)
+		populate(r)
+		w.h = g
 	default:
 		g := w.env.NewGroup(opts...)
 		r := w.env.NewRouter("r", rig.Opts{Trace: c.Trace, Extra: opts})
@@ -123,11 +131,24 @@ func (w *world) serve(c Case, q Rq, val any) *rig.Outcome {
 	if c.Subject != "router" && path != "/zz/unmatched" {
 		path = "/v1" + path
 	}
-	return rig.Serve(w.h, rig.Req{Method: q.Method, Path: path, PanicAt: q.PanicAt, PanicAfter: q.After, PanicWith: val})
+	req := rig.Req{Method: q.Method, Path: path, PanicAt: q.PanicAt, PanicAfter: q.After, PanicWith: val}
+	if q.Sub {
+		sub := "/b/9sub"
+		if c.Subject != "router" {
+			sub = "/v1" + sub
+		}
+		req.Sub = &rig.Req{Method: "GET", Path: sub}
+		req.SubHandler = w.h
+	}
+	return rig.Serve(w.h, req)
 }
 
 func summary(o *rig.Outcome) string {
-	return fmt.Sprintf("%s/%s route=%q params=%v status=%d mws=%v", o.BaseKind, o.BaseID, o.Pattern, o.Params, o.EffStatus(), o.Trace)
+	s := fmt.Sprintf("%s/%s route=%q params=%v params-after-handler=%v status=%d mws=%v", o.BaseKind, o.BaseID, o.Pattern, o.Params, o.ParamsAfter, o.EffStatus(), o.Trace)
+	if o.SubOutcome != nil {
+		s += " nested[" + summary(o.SubOutcome) + "]"
+	}
+	return s
 }
 
 func check(c Case, st *rig.Stats) error {
@@ -147,8 +168,10 @@ func check(c Case, st *rig.Stats) error {
 			val = 1000 + i
 		case "ptr":
 			val = &marker{i}
+		case "abort":
+			val = http.ErrAbortHandler
 		}
-		normal := base.serve(c, Rq{Method: q.Method, Path: q.Path}, nil)
+		normal := base.serve(c, Rq{Method: q.Method, Path: q.Path, Sub: q.Sub}, nil)
 		if normal.Panicked {
 			classes = append(classes, "baseline-panics(C05's-subject)")
 			continue
@@ -165,13 +188,16 @@ func check(c Case, st *rig.Stats) error {
 			if summary(o) != summary(normal) {
 				return rig.Violf("not-served-normally", "%s: got %s (after earlier panics: %v)", where, summary(o), firedBefore)
 			}
+			if q.Sub && normal.SubOutcome != nil {
+				classes = append(classes, "nested-request")
+			}
 			if firedBefore {
 				classes = append(classes, "normal-request-after-a-panic")
 				if q.Path == "/b/7" || q.Path == "/b/xyz" {
 					classes = append(classes, "…with-parameters")
 				}
 			}
-		case c.Recovery == "none":
+		case c.Recovery == "none" || (c.Subject == "gnewown" && normal.RouterName == ""): // the group itself has no recovery option
 			classes = append(classes, "fired:no-recovery")
 			if !o.Panicked || o.PanicKind != "injected" {
 				return rig.Violf("panic-value-changed-or-swallowed", "%s: without a recovery option the caller saw panicked=%v value %#v (%s), raised %#v", where, o.Panicked, o.PanicVal, o.PanicKind, val)
@@ -204,7 +230,7 @@ func check(c Case, st *rig.Stats) error {
 }
 
 var stats = rig.NewStats("C16",
-	"rapid draws a subject (Router; Group whose router is made by Group.New; Group with an Added router carrying its own option), a recovery mode (none, WithRecovery(f), WithStatusRecovery), WithTrace on/off, Use before or after the registrations, and 1-8 requests (eight methods x live, parameterised, unknown, '*', '' and group-unmatched paths) of which about 60% carry a fault: panic in the base handler (route, HEAD, OPTIONS, 405, 404, TRACE, group not-found) or in middleware layer m0 / m1 (Use) / m5 (route) / mg (Group.Use), before or after next, with a string, error, int or pointer value. A fault-free twin built identically gives the normal outcome. Oracle: with recovery nothing escapes ServeHTTP, f runs exactly once with the identical value (== / same pointer), WithStatusRecovery answers its status; without recovery the identical value reaches the caller; requests whose fault point is not on their path, and all later requests, are served exactly like the twin (handler, route, parameters, status, middlewares). Non-trivial: a fault fired outside a plain route handler (middleware layer or generated handler); distinct by hash of the case",
+	"rapid draws a subject (Router; Group whose router is made by Group.New, with the recovery option given to NewGroup or only to Group.New; Group with an Added router carrying its own option), a recovery mode (none, WithRecovery(f), WithStatusRecovery), WithTrace on/off, Use before or after the registrations, and 1-8 requests (eight methods x live, parameterised, unknown, '*', '' and group-unmatched paths) of which about 60% carry a fault: panic in the base handler (route, HEAD, OPTIONS, 405, 404, TRACE, group not-found) or in middleware layer m0 / m1 (Use) / m5 (route) / mg (Group.Use), before or after next, with a string, error, int, pointer or http.ErrAbortHandler value; a quarter of the requests are served by a handler that itself issues a nested request to the same subject (so two request contexts are alive at once). A fault-free twin built identically gives the normal outcome. Oracle: with recovery nothing escapes ServeHTTP, f runs exactly once with the identical value (== / same pointer), WithStatusRecovery answers its status; without recovery the identical value reaches the caller; requests whose fault point is not on their path, and all later requests, are served exactly like the twin (handler, route, parameters as seen before and after the handler ran, status, middlewares, and the same for the nested request). Non-trivial: a fault fired outside a plain route handler (middleware layer or generated handler); distinct by hash of the case",
 	"Added routers carry the same recovery option as their group (a group only promises recovery for routers it created and for its own not-found handler)")
 
 type rigMW = types.Middleware[*rig.H]
